@@ -47,6 +47,7 @@ pub fn run(
         }
 
         let mut best_candidate: Option<(Vec<EdgeTraversal>, Cost)> = None;
+        let accepted_before_turn = accepted.len();
 
         // build alternates off of most recently-picked accepted result
         let prev_accepted_path =
@@ -135,6 +136,11 @@ pub fn run(
             if let Some((ref best_path, _)) = best_candidate {
                 accepted.push(best_path.clone());
             }
+        }
+
+        // a turn that accepted nothing leaves every later turn in the same state
+        if accepted.len() == accepted_before_turn {
+            break;
         }
     }
 
